@@ -146,6 +146,13 @@ def run_shard(spec, tier, seed):
             d3 = {**det, "axis": n_l.describe(), "angle": mpmath.nstr(ang, 25)}
             Ra = rot_invariants("rotate_axis", cell, lambda v: v.rotate_axis(N, na))
             J.vec("rotate_axis ignores the axis length", cell, A.rotate_axis(N2, na), Ra, unit, d3)
+            # ... whatever the length: far below and far above any absolute threshold (squares still representable)
+            for e_ in (-60, -400, 400):
+                try:
+                    n3_l = mk(R.op_scale(n_rv, mpf(2) ** e_), s3)
+                except R.NotRepresentable:
+                    continue
+                J.vec(f"rotate_axis ignores the axis length [axis x 2^{e_}]", cell, A.rotate_axis(mode.vec(n3_l), na), Ra, unit, d3)
             J.vec("composition R(a)R(b)=R(a+b): rotate_axis", cell, Ra.rotate_axis(N, nb), A.rotate_axis(N, mode.num(ang + ang2)), unit, d3)
             J.vec("inverse R(-a)R(a)=1: rotate_axis", cell, Ra.rotate_axis(N, mode.num(-ang)), A, unit, d3)
             # quaternion (cos a/2, n sin a/2)
